@@ -449,7 +449,7 @@ class MementoFunction(MementoFunctionBase):
                     )
                 else:
                     if self._calculated_version is None:
-                        self._calculated_version = entry.version()
+                        self._calculated_version = entry.version
                         self._update_fn_reference()
                     return
 
